@@ -180,6 +180,7 @@ func TestDelivery(t *testing.T) {
 		for i := 0; i < n; i++ {
 			deliveryScenario(t, h, i)
 		}
+		deliveryAtConnect(t, h)
 	})
 }
 
@@ -217,7 +218,11 @@ func deliveryScenario(t *testing.T, h *H, idx int) {
 			ms = append(ms, m)
 			s := m.Socket(nspName, nil)
 			cliSinks[c].register(func(name string, f any) { s.OnEvent(name, f) })
-			s.OnDisconnect(func(reason sio.Reason) { mu.Lock(); closedEarly = append(closedEarly, fmt.Sprintf("client %d: %s", c, reason)); mu.Unlock() })
+			s.OnDisconnect(func(reason sio.Reason) {
+				mu.Lock()
+				closedEarly = append(closedEarly, fmt.Sprintf("client %d: %s", c, reason))
+				mu.Unlock()
+			})
 			s.Connect()
 			socks = append(socks, s)
 		}
@@ -332,5 +337,61 @@ func deliveryScenario(t *testing.T, h *H, idx int) {
 	judge("server", srvSink)
 	for c, k := range cliSinks {
 		judge(fmt.Sprintf("client %d", c), k)
+	}
+}
+
+// an event emitted by the client at the instant its socket connects, to a server application that registers the event's handler in
+// its connection handler (the usual way): the connection handler runs on a goroutine of its own after the CONNECT reply went out,
+// so the event can arrive before the registration and is then dropped (finding D40; needs the scheduler's help, hence many tries)
+func deliveryAtConnect(t *testing.T, h *H) {
+	n := 150
+	if h.Thorough() {
+		n = 6000
+	}
+	dropped, total := 0, 0
+	first := ""
+	for round := 0; round < n/50; round++ {
+		synctest.Test(t, func(t *testing.T) {
+			r := newRig(nil)
+			var mu sync.Mutex
+			got := map[string]bool{}
+			r.server.OnConnection(func(s sio.ServerSocket) {
+				s.OnEvent("first", func(id string) { mu.Lock(); got[id] = true; mu.Unlock() })
+			})
+			var ms []*sio.Manager
+			var ids []string
+			for k := 0; k < 50; k++ {
+				tr := []string{"polling", "websocket"}[k%2]
+				id := fmt.Sprintf("%d.%d.%s", round, k, tr)
+				m := r.manager([]string{tr}, &sio.ManagerConfig{NoReconnection: true})
+				ms = append(ms, m)
+				c := m.Socket("/", nil)
+				c.OnConnect(func() { c.Emit("first", id) })
+				ids = append(ids, id)
+				c.Connect() // all 50 at once: the server's goroutines compete
+			}
+			time.Sleep(200 * time.Millisecond)
+			mu.Lock()
+			for _, id := range ids {
+				total++
+				if !got[id] {
+					dropped++
+					if first == "" {
+						first = id
+					}
+				}
+			}
+			mu.Unlock()
+			r.shutdown(ms...)
+		})
+	}
+	h.evaluations += total
+	h.NonTrivial("deliveryAtConnect")
+	h.Dist("delivery.atConnect")
+	h.extra["at_connect_tried"] = total
+	h.extra["at_connect_dropped"] = dropped
+	if dropped > 0 {
+		h.Violation("C01", "an event emitted at the instant of connection is dropped: it arrived before the application's connection handler had registered its handler",
+			"client emits in OnConnect; server registers the handler in OnConnection", fmt.Sprintf("%d of %d connections lost the event (first: connection %s)", dropped, total, first))
 	}
 }
